@@ -102,13 +102,13 @@ class Ctx:
             self._gen[which] = gen.generate(which, self.repo())
         return self._gen[which]
 
-    def kani_results(self, unit, harnesses, timeout, playback=False):
+    def kani_results(self, unit, harnesses, timeout, playback=False, jobs=None):
         todo = [h for h in harnesses if (unit, h) not in self._kani or playback]
         if todo:
             u = kani.unit_def(unit)
             gen_text = self.gen_text(u['gen']) if u.get('gen') else ''
             t0 = time.time()
-            res = kani.run_unit(unit, todo, self.repo(), gen_text=gen_text, timeout=timeout, playback=playback)
+            res = kani.run_unit(unit, todo, self.repo(), gen_text=gen_text, timeout=timeout, playback=playback, **({'jobs': jobs} if jobs else {}))
             self.log('kani', unit, todo, {h: r['status'] for h, r in res.items()}, '%.1fs' % (time.time() - t0))
             if playback:
                 return res
@@ -210,10 +210,10 @@ def collect(prop, ctx):
             obs.append({'name': 'kani:%s:%s' % (k['unit'], k['harness']), 'engine': 'kani', 'status': 'deferred',
                         'why': 'thorough tier only (measured %s)' % k.get('cost', '> 2 min')})
             continue
-        by_unit.setdefault(k['unit'], []).append(k)
-    for unit, ks in by_unit.items():
+        by_unit.setdefault((k['unit'], k.get('jobs')), []).append(k)
+    for (unit, jobs), ks in by_unit.items():
         timeout = max(k.get('timeout', 600) for k in ks)
-        res = ctx.kani_results(unit, [k['harness'] for k in ks], timeout)
+        res = ctx.kani_results(unit, [k['harness'] for k in ks], timeout, jobs=jobs)
         for k in ks:
             r = res[k['harness']]
             rec = {'name': 'kani:%s:%s' % (unit, k['harness']), 'engine': 'kani', 'backend': 'kani+cbmc', 'time_s': r.get('time_s'),
